@@ -554,7 +554,7 @@ B("C11.render_scales_linearly", ["C11"], CB, "bounded_render_scales_linearly",
 B("C03.labels_do_not_change_strokes", ["C03", "C04"], CB, "bounded_labels_do_not_change_strokes",
   "CellBuffer::endorse_to_fragment_spans (From<Span> for PropertyBuffer, FragmentBuffer, Contacts, endorse, merge): the whole pipeline up to the fragments",
   "blanking the label characters of a grid leaves the set of stroked points (lines and rect outlines, cut into quarter-unit pieces) unchanged",
-  "every grid of 1x5, 2x3, 3x2 cells over {space, -, |, +, a, 7} that contains a label (91 872 grids)", timeout=900)
+  "quick: every grid of 1x5, 2x3 cells over {space, -, |, +, a} that contains a label; thorough: 1x5, 2x3, 3x2 over {space, -, |, +, a, 7} (91 872 grids)", timeout=900)
 B("N1.get_size_every_route", ["C12"], CB, "bounded_get_size_every_route", "CellBuffer::get_size / get_node_with_size / From<&str> / DerefMut<Target = BTreeMap>",
   "the canvas follows the cells that are in the buffer now, whichever way they got there (parsed, inserted through the map interface, removed)",
   "5 texts x 64 subsets of 6 inserted cells x {keep, remove the last inserted} x scales 1, 8")
